@@ -295,7 +295,7 @@ def main(argv):
                 ctx.disagreement("Lean connect model differs from the implementation's socket-API log", dict(case, model=o[:300], impl_events=real[:20]),
                                  theorem="C06_no_leak", tags=case.get("tags", []))
     # ---- part 2: single (and double) faults anywhere in a 3-call scenario ------------------------------
-    kinds = ["timeout", "reset", "pipe", "oserror", "refused", "valueerror"]
+    kinds = ["timeout", "reset", "kbd", "pipe", "oserror", "refused", "valueerror"]     # (kbd: what is raised need not be an Exception)
     scenario = [{"op": "set", "k": "a", "v": b"1", "nr": False}, {"op": "get", "k": "a"}, {"op": "get_many", "ks": ["a", "b"]}, {"op": "delete", "k": "a", "nr": False}]
     cfgs2 = [c for c in cfgs if (c["ct"], c["iot"]) == (1.5, 2.5)]
     cfgs2 += [dict(c, ign=True) for c in cfgs2 if not c["keepalive"]]
@@ -320,6 +320,10 @@ def main(argv):
                 combos += list(itertools.combinations(points, 2))
             for combo in combos:
                 for kind in (kinds if len(combo) == 1 else kinds[:2]):
+                    if kind == "kbd" and any(p[0] not in ("sendall", "recv") for p in combo):
+                        # an interruption (not an Exception) is injected only where the client has a connection in use: during the connection phase the
+                        # half-made socket is a local variable that the runtime reclaims, which the fake socket's ledger cannot see - no claim there
+                        continue
                     world, client = fresh()
                     world.arm({p: mk_exc(kind) for p in combo})
                     res = []
